@@ -7,11 +7,6 @@
 (* shared state is the registry's "initialized" flag), so the order of the  *)
 (* plan carries no information and is fixed.                                *)
 (*                                                                         *)
-(* The candidate trees are not a constant set: a session starts from a seed *)
-(* tree and, before its first call, may GROW the tree by one more top-level  *)
-(* entry (the environment's choice of input); every tree so reached runs    *)
-(* its own session.  TLC thereby enumerates all trees of bounded weight.    *)
-(*                                                                         *)
 (* A second kind of session ("elem") loads a hand-written XML document, to  *)
 (* bind _from_element outside the range of _to_element (fall back to text). *)
 (*                                                                         *)
@@ -20,10 +15,7 @@
 (***************************************************************************)
 EXTENDS CincoFormats
 
-CONSTANTS GrowKeys,   \* sequence of top-level keys, used in this order
-          GrowVals,   \* [1..Budget -> set of values]: candidate values by weight
-          Budget,     \* total weight allowed below the root
-          FixedTrees, \* extra trees that are not grown
+CONSTANTS Trees,      \* candidate trees (plain-data dicts)
           Plan,       \* sequence of [fmt, opts, lopts]
           RootTags,   \* root tags C04_XmlInverse quantifies over
           Elems       \* hand-written XML documents (root elements)
@@ -33,20 +25,14 @@ vars == <<lab>>
 
 NoOut == [ok |-> FALSE, err |-> "notrun"]
 
-Session(t, nk, rem) ==
-    [mode |-> "tree", t |-> t, nk |-> nk, rem |-> rem, pc |-> 1, stage |-> "idle", registry |-> FALSE,
-     doc |-> NoDoc, runs |-> <<>>]
+Session(t) ==
+    [mode |-> "tree", t |-> t, pc |-> 1, stage |-> "idle", registry |-> FALSE, doc |-> NoDoc, runs |-> <<>>]
+ElemSession(e) == [mode |-> "elem", e |-> e, stage |-> "idle", registry |-> FALSE, out |-> NoOut]
+\* (model instances with very many trees enumerate the same initial states without building
+\*  the set Trees, see MC_Formats!MCInit)
 Init ==
-    \/ lab = Session(DictV(<<>>), 1, Budget)
-    \/ \E t \in FixedTrees : lab = Session(t, 0, 0)
-    \/ \E e \in Elems :
-         lab = [mode |-> "elem", e |-> e, stage |-> "idle", registry |-> FALSE, out |-> NoOut]
-
-\* the input tree gets one more top-level entry (only before the session's first call)
-Grow ==
-    /\ lab.mode = "tree" /\ lab.pc = 1 /\ lab.stage = "idle" /\ lab.nk > 0
-    /\ \E i \in lab.nk..Len(GrowKeys) : \E w \in 1..lab.rem : \E v \in GrowVals[w] :
-          lab' = Session(DictV(Append(lab.t.kv, <<GrowKeys[i], v>>)), i + 1, lab.rem - w)
+    \/ \E t \in Trees : lab = Session(t)
+    \/ \E e \in Elems : lab = ElemSession(e)
 
 Busy == lab.mode = "tree" /\ lab.pc <= Len(Plan)
 P == Plan[lab.pc]
@@ -83,7 +69,7 @@ LoadsElem ==
     /\ lab' = [lab EXCEPT !.stage = "done", !.registry = TRUE,
                           !.out = FmtLoads(FmtGet("xml", DefaultOpts), [fmt |-> "xml", root |-> lab.e])]
 
-Next == Grow \/ Skip \/ Dumps \/ Loads \/ LoadsElem
+Next == Skip \/ Dumps \/ Loads \/ LoadsElem
 
 ---------------------------------------------------------------------------
 (* C04 *)
